@@ -1,7 +1,15 @@
 import Tx3Proofs.C12
+import Tx3Proofs.C12Fuel
 #print axioms Tx3.Peg.engine_inv
 #print axioms Tx3.Front.C12_engine_outcome
 #print axioms Tx3.Front.C12_number_total
 #print axioms Tx3.Front.C12_number_range
 #print axioms Tx3.Front.C12_utxo_ref_total
 #print axioms Tx3.Front.C12_bool_on_rule
+#print axioms Tx3.Peg.headOK_mono
+#print axioms Tx3.Peg.fuel_enough
+#print axioms Tx3.Peg.skipOK_of_check
+#print axioms Tx3.Peg.parseF_total
+#print axioms Tx3.Front.tx3_grammar_well_formed
+#print axioms Tx3.Front.C12_never_out_of_fuel
+#print axioms Tx3.Front.C12_engine_total
